@@ -24,6 +24,10 @@ ROUTES = ["ugrid", "topology", "mpas", "mpas_dual", "scrip", "exodus", "esmf", "
 INVS = ["InputKept", "DecodeRepeatable", "MeshOK", "RoundTrip", "ExpectedStandard", "PermOK", "CarriedConsistent", "ExtrasRoundTrip", "EmitMesh", "EmitCase"]
 QUICK_MESHES = [1, 2, 3, 4, 5, 6, 8, 14, 18, 19, 20]
 ALL_MESHES = list(range(1, 22))
+BIG_MESHES = [20, 21]  # a few hundred faces: generated alone (m.big: thin slice of the knobs)
+# the thorough tier adds these rotated / cut / further meshes with one slice of the size-independent knobs
+# (the full knob product is generated on the core meshes = the quick tier's)
+THIN_IN_THOROUGH = [m for m in range(1, 22) if m not in QUICK_MESHES]
 MESHFILES = os.path.join(os.environ.get("VERIF_REPO", "/repo"), "test", "meshfiles")
 
 # (id, relative path, kwargs, max tier): non-empty sample files
@@ -48,28 +52,57 @@ SAMPLES = [
 ]
 
 
-def gen_cfg(meshes, routes, mech="copies"):
+def gen_cfg(meshes, routes, mech="copies", thin=()):
     return (
-        "INIT Init\nNEXT Next\nCONSTANTS\n MeshSel = {%s}\n RouteSel = {%s}\n Mech = \"%s\"\n"
-        % (",".join(map(str, meshes)), ",".join('"%s"' % r for r in routes), mech)
+        "INIT Init\nNEXT Next\nCONSTANTS\n MeshSel = {%s}\n RouteSel = {%s}\n Mech = \"%s\"\n ThinMeshes = {%s}\n"
+        % (",".join(map(str, meshes)), ",".join('"%s"' % r for r in routes), mech, ",".join(map(str, thin)))
         + "".join("INVARIANT %s\n" % i for i in INVS)
         + "CHECK_DEADLOCK FALSE\n"
     )
 
 
-def generate(ctx, meshes, routes=ROUTES):
+def _generate_group(ctx, meshes, routes, thin, workers):
     r = ctx.tlc_ok(
         "Dialects",
-        gen_cfg(meshes, routes),
-        what="Decode(StoredSrc(m,r,d)) = Expected(m,r,d), standard form, carried tables consistent; meshes %s" % meshes,
-        workers=8,
-        timeout=3000,
+        gen_cfg(meshes, routes, thin=[m for m in meshes if m in thin]),
+        what="Decode(StoredSrc(m,r,d)) = Expected(m,r,d), standard form, carried tables consistent, Decode;Decode; meshes %s%s"
+        % (meshes, " (thin slice)" if all(m in thin for m in meshes) else ""),
+        workers=workers,
+        timeout=2400,
     )
     ms, cases = X.parse_prints(r.prints, r.out)
     roots = len({(c["mi"], c["route"]) for c in cases})
     steps = sum(len(c["plan"]) for c in cases)  # the Decode ; Decode ... states of every source
     if len(ms) != len(meshes) or len(ms) + roots + len(cases) + steps != r.distinct or not cases:
-        raise Machinery("Dialects: %d meshes + %d roots + %d cases + %d decode steps parsed, TLC reports %d states" % (len(ms), roots, len(cases), steps, r.distinct))
+        raise Machinery("Dialects %s: %d meshes + %d roots + %d cases + %d decode steps parsed, TLC reports %d states" % (meshes, len(ms), roots, len(cases), steps, r.distinct))
+    return ms, cases
+
+
+def generate(ctx, meshes, routes=ROUTES, thin=()):
+    """Several TLC runs (a few meshes each, two at a time) instead of one: bounded run times, and the big meshes do
+    not hold the others up.  `thin`: meshes generated with one slice of the size-independent knobs only."""
+    from concurrent.futures import ThreadPoolExecutor
+
+    nproc = int(os.environ.get("VERIF_NPROC", "0")) or 8
+    workers = max(2, min(8, nproc))
+    heavy = [m for m in meshes if m in BIG_MESHES]
+    rest = [m for m in meshes if m not in heavy]
+    full = [m for m in rest if m not in thin]
+    slim = [m for m in rest if m in thin]
+    groups = [[m] for m in heavy] + [full[i : i + 3] for i in range(0, len(full), 3)] + [slim[i : i + 5] for i in range(0, len(slim), 5)]
+    with ThreadPoolExecutor(max_workers=2) as ex:
+        def one(ig):
+            import time
+
+            time.sleep(0.25 * (ig[0] % 2))  # the runner tags its files by the millisecond: never start two runs at once
+            return _generate_group(ctx, ig[1], routes, set(thin), workers)
+
+        parts = list(ex.map(one, list(enumerate(groups))))
+    ms, cases = {}, []
+    for m, c in parts:
+        ms.update(m)
+        cases += c
+    cases.sort(key=lambda c: c["id"])
     return ms, cases
 
 
@@ -127,7 +160,7 @@ def run(ctx):
     meshes = ALL_MESHES if thorough else QUICK_MESHES
     only = os.environ.get("C01_ROUTES")
     routes = only.split(",") if only else ROUTES
-    ms, cases = generate(ctx, meshes, routes)
+    ms, cases = generate(ctx, meshes, routes, thin=THIN_IN_THOROUGH if thorough else ())
     mechanism_demo(ctx)
     ctx.exhaustive = True
     ctx.rule = (
@@ -146,9 +179,11 @@ def run(ctx):
     for k, c in enumerate(cases):
         c["k"] = k
         if thorough and c["route"] in FILE_ROUTES:
-            # both ways: the in-memory object (input kept, decoded repeatedly) and the file on disk
+            # the in-memory object (input kept, decoded repeatedly) always, and for every second source (all of the
+            # thin-slice meshes) also the file on disk
             work.append((c, ms[c["mi"]], ctx.work, False))
-            work.append((dict(c, id=c["id"] + "@disk"), ms[c["mi"]], ctx.work, True))
+            if (k + off) % 2 == 0 or c["mi"] in THIN_IN_THOROUGH:
+                work.append((dict(c, id=c["id"] + "@disk"), ms[c["mi"]], ctx.work, True))
         else:
             work.append((c, ms[c["mi"]], ctx.work, (k + off) % 10 == 0))
     import time
